@@ -730,6 +730,36 @@ def _easyfea_modules():
 _INSTALLED = [False]
 
 
+def _install_inplace_promotion():
+    """`A *= s` on a float FeArray with a symbolic `s` cannot store its result in the float buffer.  In symbolic mode the
+    statement rebinds the name to the object-dtype product instead (as `A = A * s`); a read-only buffer (cached arrays are
+    frozen by `cache_computed_values`) raises exactly as numpy does.  Aliases of the *float* buffer are therefore not
+    updated - stated as a stub whenever it is used."""
+    from EasyFEA.FEM._linalg import FeArray
+
+    if getattr(FeArray, "_verif_inplace", False):
+        return
+
+    def make(opname, fn):
+        base = getattr(_np.ndarray, opname)
+
+        def inplace(self, other):
+            if _ACTIVE[0] and self.dtype != object and has_sym(other):
+                if not self.flags.writeable:
+                    raise ValueError("output array is read-only")
+                USED_STUBS.add("in-place arithmetic float FeArray (op)= symbolic -> rebinding to the object-dtype result (aliases of the float buffer not updated)")
+                return fn(self.astype(object), other)
+            return base(self, other)
+
+        return inplace
+
+    import operator
+
+    for opname, fn in (("__imul__", operator.mul), ("__iadd__", operator.add), ("__isub__", operator.sub), ("__itruediv__", operator.truediv)):
+        setattr(FeArray, opname, make(opname, fn))
+    FeArray._verif_inplace = True
+
+
 def _install_param_wrappers():
     """Utilities/_params checkers test isinstance(x, (int, float)); a Sym must go through the *same comparison*,
     which thereby lands in the path condition as the documented precondition."""
@@ -788,6 +818,7 @@ def install():
 
     _patch_scipy_object_matmul()
     _install_param_wrappers()
+    _install_inplace_promotion()
     for m in _easyfea_modules():
         if getattr(m, "np", None) is _np:
             m.np = NP
